@@ -1,5 +1,8 @@
 import Starcal.SrcTie.Utils
 import Starcal.SrcTie.Hijri
+import Starcal.Drv.Cal
+import Starcal.HijriT3
+import Starcal.HijriT4
 import Starcal.HTable
 import Starcal.HijriT
 /-! Source tie, cal_types/hijri in month-table mode: `MonthData.GetDateFromJd` (a `for jd > startJd` loop with two `break`s
@@ -10,7 +13,7 @@ import Starcal.HijriT
     makes of the embedded JSON) is a regenerated fact: the extractor dumps it through the `verif` accessor into
     Gen/HijriTable.lean on every run and the C01–C03 / C20 obligations compare it with `HijriT`. -/
 namespace Starcal.SrcTie
-open Starcal Starcal.Gen.Src
+open Starcal Starcal.Gen.Src Starcal.RatCeil
 
 /-- the association list `Load` builds: `lens[k]` under the key `ym0 + k` -/
 def tableMap (ym0 : Int) : List Int → List (Int × Int)
@@ -361,5 +364,124 @@ theorem hijriT_GetMonthLen_eq (y m : Int) (h1 : 1 ≤ m) (h2 : m ≤ 12) :
 
 example : hijriT_GetMonthLen hijriTable 1436 1 = some 29 := by decide +kernel
 example : hijriT_ToJd hijriTable ⟨1436, 1, 1⟩ = some 2456957 := by decide +kernel
+
+/-! ### `JdTo` with the month table on -/
+
+/-- the month count of the fallback, as the model computes it -/
+def mcOf (jd : Int) : Int :=
+  (2 * (jd - HijriT.toJdT ⟨(30 * (jd - 1 - 1948440) + 10646) / 10631, 1, 1⟩) + 1 + 58) / 59
+
+/-- outside the table window the fallback's month count is at least 1: far from the table by the year bracket of the
+    arithmetic calendar, in the two strips next to it (years 1426 and 1443, outside the window) by evaluation -/
+theorem strip_low : (HijriT.rangeI 2453413 29).all (fun jd => decide (1 ≤ mcOf jd)) = true := by decide +kernel
+theorem strip_high : (HijriT.rangeI 2459674 118).all (fun jd => decide (1 ≤ mcOf jd)) = true := by decide +kernel
+
+theorem mc_pos (jd : Int) (hout : ¬ (HijriT.endJd ≥ jd ∧ jd ≥ HijriT.startJd)) : 1 ≤ mcOf jd := by
+  rw [HijriT.endJd_val] at hout
+  unfold HijriT.startJd at hout
+  by_cases h1 : jd < 2453413
+  · have hy := HijriT.year_far_low jd h1
+    have hb := Hijri.year_bracket jd
+    simp only at hb
+    unfold mcOf
+    rw [show Hijri.Epoch = (1948440 : Int) from rfl] at hy hb
+    generalize hyv : (30 * (jd - 1 - 1948440) + 10646) / 10631 = y at *
+    have e1 : HijriT.toJdT ⟨y, 1, 1⟩ = Hijri.toJd ⟨y, 1, 1⟩ := HijriT.toJdT_far _ (by simp) (Or.inl hy)
+    rw [e1, Hijri.yearStart_eq]
+    omega
+  · by_cases h2 : 2459792 ≤ jd
+    · have hy := HijriT.year_far_high jd h2
+      have hb := Hijri.year_bracket jd
+      simp only at hb
+      unfold mcOf
+      rw [show Hijri.Epoch = (1948440 : Int) from rfl] at hy hb
+      generalize hyv : (30 * (jd - 1 - 1948440) + 10646) / 10631 = y at *
+      have e1 : HijriT.toJdT ⟨y, 1, 1⟩ = Hijri.toJd ⟨y, 1, 1⟩ := HijriT.toJdT_far _ (by simp) (Or.inr hy)
+      rw [e1, Hijri.yearStart_eq]
+      omega
+    · by_cases h3 : jd < 2453442
+      · have hm := HijriT.mem_rangeI 2453413 29 jd (by omega) (by omega)
+        have := List.all_eq_true.mp strip_low jd hm
+        simpa using this
+      · have hm := HijriT.mem_rangeI 2459674 118 jd (by omega) (by omega)
+        have := List.all_eq_true.mp strip_high jd hm
+        simpa using this
+
+theorem hijriT_JdTo_eq (jd : Int) :
+    hijriT_JdTo hijriTable jd =
+      some ⟨(HijriT.jdToT jd).year, GoSem.u8 (HijriT.jdToT jd).month, GoSem.u8 (HijriT.jdToT jd).day⟩ := by
+  have hdef : hijriT_JdTo hijriTable jd = (do
+      let date ← hijri_MonthData_GetDateFromJd hijriTable jd
+      if (date).isSome then date
+      else
+        let year ← (utils_Div ((30 * ((jd - 1) - 1948440)) + 10646) 10631)
+        let month := (GoSem.u8 (← (utils_IntMin 12 (GoSem.ftoi ((Rat.ceil (((((jd : Int) : Rat) + ((1 : Rat) / 2)) - (((← (hijriT_ToJd hijriTable (← (SrcExt.lib_NewDate year 1 1)))) : Int) : Rat)) / ((59 : Rat) / 2)) : Int) : Rat)))))
+        let day := (GoSem.u8 ((jd - (← (hijriT_ToJd hijriTable (← (SrcExt.lib_NewDate year month 1))))) + 1))
+        (SrcExt.lib_NewDate year month day)) := rfl
+  have hlen : HijriT.lens.length < 1024 := by rw [HijriT.lens_length]; decide
+  have hg := hijri_GetDateFromJd_eq 1426 2 1 HijriT.startJd HijriT.lens hlen jd
+  by_cases hin : HijriT.endJd ≥ jd ∧ jd ≥ HijriT.startJd
+  · -- inside the window: the table walk
+    have hrem0 : 0 ≤ jd - HijriT.startJd := by omega
+    have hrem1 : jd - HijriT.startJd ≤ HTable.sum HijriT.lens := by have := hin.1; unfold HijriT.endJd at this; omega
+    have hwalk := HTable.walk_pos HijriT.startJd HijriT.lens HijriT.lens_pos HijriT.ym0 (jd - HijriT.startJd) hrem0 hrem1
+    have e : HijriT.startJd + (jd - HijriT.startJd) = jd := by omega
+    rw [e] at hwalk
+    have hval := hg.2 hin _ hwalk
+    have hj : HijriT.jdToT jd = ⟨(HijriT.ym0 + (HTable.pos HijriT.lens (jd - HijriT.startJd)).1) / 12,
+        (HijriT.ym0 + (HTable.pos HijriT.lens (jd - HijriT.startJd)).1) % 12 + 1,
+        (HTable.pos HijriT.lens (jd - HijriT.startJd)).2⟩ := HijriT.jdToT_window jd hin.2 hin.1
+    rw [hdef]
+    unfold hijriTable
+    rw [hval, hj]
+    simp only [bind, Option.bind, Option.isSome_some, if_true]
+  · -- outside: the arithmetic fallback over the table-aware ToJd
+    have hnone := hg.1 hin
+    have hmc := mc_pos jd hin
+    have htn : HijriT.tableJdTo jd = none := by unfold HijriT.tableJdTo; rw [if_neg hin]
+    rw [hdef]
+    unfold hijriTable at hnone ⊢
+    rw [hnone]
+    have hj : HijriT.jdToT jd =
+        (let year := (30 * (jd - 1 - 1948440) + 10646) / 10631
+         let ys := HijriT.toJdT ⟨year, 1, 1⟩
+         let mc := (2 * (jd - ys) + 1 + 58) / 59
+         let month := if 12 < mc then 12 else mc
+         let day := jd - HijriT.toJdT ⟨year, month, 1⟩ + 1
+         (⟨year, month, day⟩ : Hijri.Date)) := by
+      unfold HijriT.jdToT
+      rw [htn]
+      rfl
+    rw [hj]
+    simp only []
+    unfold mcOf at hmc
+    simp only [bind, Option.bind, Option.isSome_none, Bool.false_eq_true, if_false, utils_Div_pos _ 10631 (by decide),
+      SrcExt.lib_NewDate, pure]
+    have ht1 := fun y => hijriT_ToJd_eq y 1 1 (by decide) (by decide)
+    unfold hijriTable at ht1
+    simp only [ht1, ceil_month, ftoi_intCast, utils_IntMin_eq, intMin]
+    generalize hyv : (30 * (jd - 1 - 1948440) + 10646) / 10631 = year at *
+    generalize hmv : (2 * (jd - HijriT.toJdT ⟨year, 1, 1⟩) + 1 + 58) / 59 = mc at *
+    have hm : 1 ≤ (if 12 < mc then 12 else mc) ∧ (if 12 < mc then 12 else mc) ≤ 12 := by split <;> omega
+    generalize (if 12 < mc then 12 else mc) = mo at *
+    rw [GoSem.u8_id (x := mo) (by omega) (by omega)]
+    have ht2 := hijriT_ToJd_eq year mo 1 hm.1 (by omega)
+    unfold hijriTable at ht2
+    simp only [ht2]
+
+example : hijriT_JdTo hijriTable 2456957 = some ⟨1436, 1, 1⟩ := by decide +kernel
+
+/-- hijri with the month table on, as translated from today's source (`monthData` = the embedded table), IS the model
+    of the configuration `calHijT` (`Drv/Cal.lean`: `jdTo := HijriT.jdToT`, `toJd := HijriT.toJdT`,
+    `monthLen := HijriT.monthLenT`) up to the `uint8` conversions of the month, day and month-length results that the
+    code itself applies (the driver applies the same `n8` when it prints): every day number, every year, months 1..12,
+    `uint8` days. No well-formedness is needed: the statement holds at the two seams of the known findings too. -/
+theorem hijriT_translates :
+    (∀ jd : Int, hijriT_JdTo hijriTable jd =
+      some ⟨(HijriT.jdToT jd).year, GoSem.u8 (HijriT.jdToT jd).month, GoSem.u8 (HijriT.jdToT jd).day⟩) ∧
+    (∀ y m d : Int, 1 ≤ m → m ≤ 12 → hijriT_ToJd hijriTable ⟨y, m, d⟩ = some (HijriT.toJdT ⟨y, m, d⟩)) ∧
+    (∀ y m : Int, 1 ≤ m → m ≤ 12 → hijriT_GetMonthLen hijriTable y m = some (GoSem.u8 (HijriT.monthLenT y m))) :=
+  ⟨fun jd => hijriT_JdTo_eq jd, fun y m d h1 h2 => hijriT_ToJd_eq y m d h1 (by omega),
+   fun y m h1 h2 => hijriT_GetMonthLen_eq y m h1 h2⟩
 
 end Starcal.SrcTie
